@@ -900,6 +900,9 @@ register_init(RegisterTable *t) /* NOLINT */
         return rv;
     }
 
+    /* Whatever an earlier initialisation established is void from here on. */
+    BIT_CLEAR(t->flags, REG_TF_INITIALISED);
+
     if (t->area == NULL) {
         rv.code = REG_INIT_TABLE_INVALID;
         return rv;
@@ -910,7 +913,6 @@ register_init(RegisterTable *t) /* NOLINT */
         return rv;
     }
 
-    BIT_CLEAR(t->flags, REG_TF_INITIALISED);
     BIT_SET(t->flags, REG_TF_DURING_INIT);
     /* Determine table sizes first */
     t->areas = reg_count_areas(t->area);
